@@ -1,6 +1,6 @@
 """Sidecar contracts for the queries of C15: find (exact / substring), getNonEntries."""
 from pyvc.contracts import contract
-from contracts.c_tiers import wf_interval_tier, wf_point_tier, IT
+from contracts.c_tiers import wf_interval_tier, wf_point_tier, IT, PT
 
 TT = "praatio.data_classes.textgrid_tier.TextgridTier"
 
@@ -25,3 +25,36 @@ contract(IT + ".getNonEntries", serves=["C15"], spec_module="spec.queries",
          ensures=[("positive-length", "forall(result, lambda g: g.start < g.end and g.label == '')"),
                   ("in-span", "forall(result, lambda g: 0 <= g.start and g.end <= self.maxTimestamp)"),
                   ("ordered", "adjacent(result, lambda a, b: a.end <= b.start)")])
+
+# ---- validate(): non-raising modes.  The loop carries `previous...` (closed form: the preceding entry) and the flag
+# `isValid` (flag rule of pyvc/loops.py: False after the loop iff some iteration takes a path that sets it).
+# reportingMode='error' raises at the first problem found, with a class that depends on the order of the checks: not
+# part of the property ("returns False exactly when ...") and left to the bounded check.
+
+
+def any_interval_tier(S, name="self"):
+    """NOT assumed well-formed: validate() is what decides that"""
+    ents = S.list(name + ".entries", "Interval")
+    return S.obj(IT, name=S.str(name + ".name"), _entries=ents, minTimestamp=S.real(name + ".min"),
+                 maxTimestamp=S.real(name + ".max"),
+                 errorReporter=S.I.get_function("praatio.utilities.utils.reportWarning"))
+
+
+def any_point_tier(S, name="self"):
+    ents = S.list(name + ".entries", "Point")
+    return S.obj(PT, name=S.str(name + ".name"), _entries=ents, minTimestamp=S.real(name + ".min"),
+                 maxTimestamp=S.real(name + ".max"),
+                 errorReporter=S.I.get_function("praatio.utilities.utils.reportWarning"))
+
+
+contract(IT + ".validate", serves=["C15", "C05"], spec_module="spec.queries",
+         configs={"reportingMode": ["silence", "warning", "bogus"]},
+         inputs=lambda S, cfg: dict(self=any_interval_tier(S), reportingMode=cfg["reportingMode"]),
+         loops={"loop#1": {"carried": {"previousInterval": "(self.entries[j - 1] if j > 0 else None)"}}},
+         spec="spec.queries.IntervalTier_validate", frame=["self"], engine_opts={"touch": True, "successor": True})
+
+contract(PT + ".validate", serves=["C15", "C05"], spec_module="spec.queries",
+         configs={"reportingMode": ["silence", "warning", "bogus"]},
+         inputs=lambda S, cfg: dict(self=any_point_tier(S), reportingMode=cfg["reportingMode"]),
+         loops={"loop#1": {"carried": {"previousPoint": "(self.entries[j - 1] if j > 0 else None)"}}},
+         spec="spec.queries.PointTier_validate", frame=["self"], engine_opts={"touch": True, "successor": True})
